@@ -356,6 +356,14 @@ def run_config(config, outdir):
         inp = families.build_inputs(c)
         inp["_fpol_kind"] = c["fpol"]
         inp["_pressure_kind"] = c["pressure"]
+        if c.get("extrapolate_to"):
+            # extrapolate_profiles needs psi_sol and psi_sol_inner as psi values: given here as a
+            # normalised-psi fraction and resolved with the family's own critical points
+            ax, sep = inp["o_point"]["psi"], inp["x_points"][0]["psi"]
+            ps = float(ax + c["extrapolate_to"] * (sep - ax))
+            c["options"] = dict(c["options"], extrapolate_profiles=True, psi_sol=ps, psi_sol_inner=ps)
+            c["options"].pop("psinorm_sol", None)
+            c["options"].pop("psinorm_sol_inner", None)
         stage = "equilibrium"
         if c["family"] == "X":
             eq = build_equilibrium_X(c, inp, side_extra, outdir)
@@ -383,8 +391,18 @@ def run_config(config, outdir):
             mesh = BoutMesh(eq, mopts)
             meta["stages"]["mesh"] = time.time() - t0
             snaps = []
+            if c.get("geometry_first"):
+                # the GUI's write - regrid - write loop: geometry() already ran on this mesh
+                # before the points are redistributed
+                stage = "geometry(first)"
+                mesh.geometry()
             for k, step in enumerate(c["post"]):
                 stage = "redistribute[%d]" % k
+                # "<option>__times": factor applied to the option's current (evaluated) value
+                step = {(kk[:-7] if kk.endswith("__times") else kk):
+                        (float(mesh.equilibrium.nonorthogonal_options[kk[:-7]]) * vv if kk.endswith("__times") else vv)
+                        for kk, vv in step.items()}
+                side_extra.setdefault("post_resolved", []).append(dict(step))
                 mesh.redistributePoints(step)
                 mesh.calculateRZ()
                 if c.get("snapshot_each"):
